@@ -132,6 +132,11 @@ func propMulti(t *rapid.T) {
 		}
 		return map[string]any{"terms": ts, "vartime": vartime, "receiver": rk, "receiver_index": rIdx}
 	})
+	if rapid.IntRange(0, 3).Draw(t, "faulted-before") == 0 {
+		// a multiplication that cannot complete (recovered by the caller) comes first: whatever scratch
+		// state it left half-used must not reach this call
+		lib.FaultedMultiplication(t, "f", lib.Sc(drawScalar(t, "fs")), lib.Pt(gen.NonIdentityPoint(t, "fp").P))
+	}
 	var ret *secp256k1.Point
 	if vartime {
 		ret = rcv.MultiScalarMultVartime(scalars, points)
